@@ -85,6 +85,11 @@ if __name__ == "__main__":
         run(sys.argv[2], tier, sys.argv[4:] or None)
     elif sys.argv[1] == "all":
         tier = sys.argv[2] if len(sys.argv) > 2 else "quick"
+        only_from = sys.argv[3] if len(sys.argv) > 3 else ""
         for n in sorted(os.listdir(SEEDED)):
-            if os.path.exists(os.path.join(SEEDED, n, "patch.diff")):
-                run(n, tier)
+            if os.path.exists(os.path.join(SEEDED, n, "patch.diff")) and n >= only_from:
+                try:
+                    run(n, tier)
+                except AssertionError as e:
+                    print("  %s: NOT RUN (%s)" % (n, str(e)[:200]))
+                    sh("git -C /repo checkout -- .")
